@@ -50,10 +50,14 @@ Notation A2 t a b := (t%Z, [LZ a; LZ b]).
 (* ================================================================== writer.go ======= *)
 
 (* ---- isNewDay: Go's truncating int64 division of (sec + zone) by 86400 -------------------- *)
-Lemma ml_isNewDay_ok c last sec : in_i64 (last + c_tz c) -> in_i64 (sec + c_tz c) ->
-  ml_isNewDay (c_tz c) last sec = is_new_day c last sec.
+(* isNewDay's arithmetic, written out (Go int64: wrap-around sums, truncating division) *)
+Definition new_day_arith (tz last sec : Z) : bool :=
+  i64 (Z.quot (i64 (last + tz)) 86400) <? i64 (Z.quot (i64 (sec + tz)) 86400).
+
+Lemma new_day_arith_ok c last sec : in_i64 (last + c_tz c) -> in_i64 (sec + c_tz c) ->
+  new_day_arith (c_tz c) last sec = is_new_day c last sec.
 Proof.
-  intros H1 H2. unfold ml_isNewDay, is_new_day. cbv zeta.
+  intros H1 H2. unfold new_day_arith, is_new_day.
   rewrite (i64_id (last + c_tz c)), (i64_id (sec + c_tz c)) by assumption.
   assert (Hq : forall x, in_i64 x -> in_i64 (Z.quot x 86400)).
   { intros x Hx. unfold in_i64, two63 in *. pose proof (Z.quot_rem' x 86400) as E.
@@ -65,37 +69,52 @@ Proof.
   rewrite !i64_id by (apply Hq; assumption). rewrite Z.gtb_ltb. reflexivity.
 Qed.
 
+(* comparisons split on both sides, leaves by lia: independent of how the Go test is written *)
+Ltac split_cmps :=
+  repeat match goal with
+  | |- context [Z.ltb ?a ?b] => destruct (Z.ltb a b) eqn:?
+  | |- context [Z.leb ?a ?b] => destruct (Z.leb a b) eqn:?
+  | |- context [Z.eqb ?a ?b] => destruct (Z.eqb a b) eqn:?
+  end.
+
+Lemma ml_isNewDay_arith tz last sec : ml_isNewDay tz last sec = new_day_arith tz last sec.
+Proof.
+  unfold ml_isNewDay, new_day_arith. cbv zeta.
+  split_cmps; first [reflexivity | bool_facts; first [reflexivity | exfalso; lia]].
+Qed.
+
+Lemma ml_isNewDay_ok c last sec : in_i64 (last + c_tz c) -> in_i64 (sec + c_tz c) ->
+  ml_isNewDay (c_tz c) last sec = is_new_day c last sec.
+Proof. intros H1 H2. rewrite ml_isNewDay_arith. apply new_day_arith_ok; assumption. Qed.
+
 (* ---- Write: error code and the order of effects -------------------------------------------
    1 stamp every item [ts] . 2 rollToNextFile [ts] . 3 FilePosition (value: pos) . 4 writeIndex [sec, pos]
    5 writeItemsAndFlush . 6 rollFileIfSizeExceeded [ts] . 7 latestOpSec := [sec] *)
-Section WriteSpec.
-  Variables (latest tz : Z) (files_nil idx_ok items_empty : bool) (pos : Z) (pos_ok roll_ok size_ok : bool) (ts : Z) (write_ok : bool).
-  Let sec := i64 (ts / 1000).
-  Definition write_rest (t : list leaf_act) : Z * list leaf_act :=
-    if negb write_ok then (1, t ++ [A0 5]) else
-    if negb size_ok then (1, t ++ [A0 5; A1 6 ts]) else
-    if latest <? sec then (0, t ++ [A0 5; A1 6 ts; A1 7 sec]) else (0, t ++ [A0 5; A1 6 ts]).
-  Definition write_after_pos (t : list leaf_act) : Z * list leaf_act :=
-    if (latest <? sec) || (pos =? 0)
-    then (if negb idx_ok then (1, t ++ [A2 4 sec pos]) else write_rest (t ++ [A2 4 sec pos]))
-    else write_rest t.
-  Definition write_after_roll (t : list leaf_act) : Z * list leaf_act :=
-    if negb pos_ok then (1, t ++ [A0 3]) else write_after_pos (t ++ [A0 3]).
-  Definition write_spec : Z * list leaf_act :=
-    if items_empty then (0, []) else
-    if ts <=? 0 then (1, []) else
-    if files_nil then (1, []) else
-    if sec <? latest then (0, [A1 1 ts]) else
-    if (latest <? sec) && ml_isNewDay tz latest sec
-    then (if negb roll_ok then (1, [A1 1 ts; A1 2 ts]) else write_after_roll [A1 1 ts; A1 2 ts])
-    else write_after_roll [A1 1 ts].
-End WriteSpec.
+Definition write_rest (latest : Z) (size_ok : bool) (ts : Z) (write_ok : bool) (t : list leaf_act) : Z * list leaf_act :=
+  if negb write_ok then (1, t ++ [A0 5]) else
+  if negb size_ok then (1, t ++ [A0 5; A1 6 ts]) else
+  if latest <? i64 (ts / 1000) then (0, t ++ [A0 5; A1 6 ts; A1 7 (i64 (ts / 1000))]) else (0, t ++ [A0 5; A1 6 ts]).
+Definition write_after_pos (latest : Z) (idx_ok : bool) (pos : Z) (size_ok : bool) (ts : Z) (write_ok : bool) (t : list leaf_act) : Z * list leaf_act :=
+  if (latest <? i64 (ts / 1000)) || (pos =? 0)
+  then (if negb idx_ok then (1, t ++ [A2 4 (i64 (ts / 1000)) pos])
+        else write_rest latest size_ok ts write_ok (t ++ [A2 4 (i64 (ts / 1000)) pos]))
+  else write_rest latest size_ok ts write_ok t.
+Definition write_after_roll (latest : Z) (idx_ok : bool) (pos : Z) (pos_ok size_ok : bool) (ts : Z) (write_ok : bool) (t : list leaf_act) : Z * list leaf_act :=
+  if negb pos_ok then (1, t ++ [A0 3]) else write_after_pos latest idx_ok pos size_ok ts write_ok (t ++ [A0 3]).
+Definition write_spec (latest tz : Z) (files_nil idx_ok items_empty : bool) (pos : Z) (pos_ok roll_ok size_ok : bool) (ts : Z) (write_ok : bool) : Z * list leaf_act :=
+  if items_empty then (0, []) else
+  if ts <=? 0 then (1, []) else
+  if files_nil then (1, []) else
+  if i64 (ts / 1000) <? latest then (0, [A1 1 ts]) else
+  if (latest <? i64 (ts / 1000)) && new_day_arith tz latest (i64 (ts / 1000))
+  then (if negb roll_ok then (1, [A1 1 ts; A1 2 ts]) else write_after_roll latest idx_ok pos pos_ok size_ok ts write_ok [A1 1 ts; A1 2 ts])
+  else write_after_roll latest idx_ok pos pos_ok size_ok ts write_ok [A1 1 ts].
 
 Lemma ml_Write_spec latest tz files_nil idx_ok items_empty pos pos_ok roll_ok size_ok ts write_ok :
   ml_Write latest tz files_nil idx_ok items_empty pos pos_ok roll_ok size_ok ts write_ok =
   write_spec latest tz files_nil idx_ok items_empty pos pos_ok roll_ok size_ok ts write_ok.
 Proof.
-  unfold ml_Write, write_spec, write_after_roll, write_after_pos, write_rest, ml_isNewDay. cbv zeta.
+  unfold ml_Write, write_spec, write_after_roll, write_after_pos, write_rest, new_day_arith. cbv zeta.
   leaf_cases.
 Qed.
 
@@ -175,7 +194,7 @@ Proof.
   assert (Hsec : i64 (ts / 1000) = ts / 1000) by (apply i64_id; unfold in_i64, two63, two64 in *; lia).
   assert (Hu : forall w', 0 <= cur_size w' < two64) by (intros w'; specialize (Hsize w'); unfold two63, two64 in *; lia).
   rewrite ml_Write_spec. unfold write_spec, write_after_roll, write_after_pos, write_rest. cbn [negb].
-  rewrite Hsec. rewrite (ml_isNewDay_ok c (w_latest w) (ts / 1000) Hl Hs).
+  rewrite ?Hsec. rewrite (new_day_arith_ok c (w_latest w) (ts / 1000) Hl Hs).
   unfold w_write. cbv zeta. destruct items as [|it0 its]; [congruence|]. set (items := it0 :: its) in *.
   destruct (ts <=? 0) eqn:Ets; [apply Z.leb_le in Ets; lia|].
   destruct (ts / 1000 <? w_latest w) eqn:Eold; [intros _; split; reflexivity|].
@@ -303,12 +322,6 @@ Lemma ml_isPositionInTimeFor_trace begin_ms sec off csec :
 Proof. unfold ml_isPositionInTimeFor. cbv zeta. cbn [negb]. leaf_cases. Qed.
 
 (* ---- getOffsetStartAndFileIdx = offset_start --------------------------------------------------- *)
-Lemma ml_getOffsetStartAndFileIdx_spec begin_ms cache_ok cache_noerr li lo :
-  ml_getOffsetStartAndFileIdx begin_ms cache_ok cache_noerr li lo =
-  if negb cache_noerr then (0, 0, 0, [A1 1 begin_ms]) else
-  if cache_ok then (lo, li, 0, [A1 1 begin_ms; A2 2 0 0]) else (0, 0, 0, [A1 1 begin_ms]).
-Proof. unfold ml_getOffsetStartAndFileIdx. cbv zeta. leaf_cases. Qed.
-
 Lemma ml_getOffsetStartAndFileIdx_step_spec begin_ms cached_off i j name_eq off :
   ml_getOffsetStartAndFileIdx_step begin_ms cached_off i j name_eq off =
   if name_eq then LBreak (u32 j, cached_off) else LContinue (i, off).
@@ -346,7 +359,7 @@ Theorem ml_getOffsetStartAndFileIdx_ok files st begin_ms : lenZ files < two32 ->
   let '(off, i, err, _) := ml_getOffsetStartAndFileIdx begin_ms (cache_ok files st (begin_ms / 1000)) true (fst lr) (snd lr) in
   (off, Z.to_nat i) = offset_start files st (begin_ms / 1000) /\ err = 0.
 Proof.
-  intros Hb. cbv zeta. rewrite ml_getOffsetStartAndFileIdx_spec. cbn [negb]. unfold offset_start.
+  intros Hb. cbv zeta. unfold ml_getOffsetStartAndFileIdx, offset_start. cbv zeta. cbn [negb].
   destruct (cache_ok files st (begin_ms / 1000)); [|split; reflexivity].
   destruct (s_name st) as [[d s]|]; [|split; reflexivity].
   pose proof (name_loop_ok d s (s_off st) files O (0, 0)) as E. cbn [Z.of_nat] in E. rewrite E by lia. clear E.
@@ -357,17 +370,14 @@ Qed.
 (* ---- searchOffsetAndRead: the file loop = search_loop ---------------------------------------------
    1 listMetricFiles . 2 getOffsetStartAndFileIdx . 3 findOffsetToStart(files[i], begin, offsetStart) [offsetStart]
    4 doRead(files, i, offset) [i, offset] *)
-Section SearchStep.
-  Variables (begin_ms found : Z) (found_ok : bool) (i : Z) (list_ok : bool) (n offsetStart rd0 rd1 st0 st1 : Z) (start_ok : bool).
-  Definition search_iter (pre : list leaf_act) : leaf_flow (Z * Z) (Z * Z) * list leaf_act :=
-    if i <? u32 n then
-      (if negb found_ok then (LContinue (u32 (i + 1), 0), pre ++ [A1 3 offsetStart]) else
-       if 0 <=? found then (LReturn (rd0, rd1), pre ++ [A1 3 offsetStart; A2 4 i (u64 found)])
-       else (LContinue (u32 (i + 1), 0), pre ++ [A1 3 offsetStart]))
-    else (LBreak (i, offsetStart), pre).
-  Definition search_step_spec : leaf_flow (Z * Z) (Z * Z) * list leaf_act :=
-    if negb list_ok then (LReturn (0, 1), [A0 1]) else search_iter [A0 1; A0 2].
-End SearchStep.
+Definition search_iter (found : Z) (found_ok : bool) (i n offsetStart rd0 rd1 : Z) (pre : list leaf_act) : leaf_flow (Z * Z) (Z * Z) * list leaf_act :=
+  if i <? u32 n then
+    (if negb found_ok then (LContinue (u32 (i + 1), 0), pre ++ [A1 3 offsetStart]) else
+     if 0 <=? found then (LReturn (rd0, rd1), pre ++ [A1 3 offsetStart; A2 4 i (u64 found)])
+     else (LContinue (u32 (i + 1), 0), pre ++ [A1 3 offsetStart]))
+  else (LBreak (i, offsetStart), pre).
+Definition search_step_spec (found : Z) (found_ok : bool) (i : Z) (list_ok : bool) (n offsetStart rd0 rd1 : Z) : leaf_flow (Z * Z) (Z * Z) * list leaf_act :=
+  if negb list_ok then (LReturn (0, 1), [A0 1]) else search_iter found found_ok i n offsetStart rd0 rd1 [A0 1; A0 2].
 
 Lemma ml_searchOffsetAndRead_step_spec begin_ms found found_ok i list_ok n offsetStart rd0 rd1 st0 st1 start_ok :
   ml_searchOffsetAndRead_step begin_ms found found_ok i list_ok n offsetStart rd0 rd1 st0 st1 start_ok =
@@ -429,7 +439,7 @@ Qed.
 Definition fots_pre (lastPos pos1 : Z) : list leaf_act := [A0 1; A0 2; A0 3; A0 4; A1 5 (i64 lastPos); A0 6; A1 7 (u64 pos1)].
 
 Lemma ml_findOffsetToStart_step_iter begin_ms eof lastPos off_in pos1 pos2 pos2_ok rdoff_ok rdoff rdsec_ok rdsec sec_in :
-  ml_findOffsetToStart_step begin_ms eof lastPos off_in true pos1 true pos2 pos2_ok rdoff_ok rdoff rdsec_ok rdsec sec_in true true =
+  ml_findOffsetToStart_step begin_ms lastPos off_in true pos1 true pos2 pos2_ok rdoff_ok rdoff eof rdsec_ok rdsec sec_in true true =
   let pre := fots_pre lastPos pos1 in
   if negb rdsec_ok then (if eof then (LReturn (-1, 0), pre ++ [A0 8]) else (LReturn (0, 1), pre ++ [A0 8])) else
   if begin_ms / 1000 <=? rdsec then (LBreak (off_in, rdsec), pre ++ [A0 8]) else
@@ -458,12 +468,12 @@ Qed.
 Fixpoint gen_scan (es : list (Z * Z)) (torn : bool) (pos bsec_ms : Z) (carried : Z * Z) : scan_res * Z :=
   match es with
   | [] =>
-      match fst (ml_findOffsetToStart_step bsec_ms (negb torn) 0 (fst carried) true pos true 0 true true 0 false 0 (snd carried) true true) with
+      match fst (ml_findOffsetToStart_step bsec_ms 0 (fst carried) true pos true 0 true true 0 (negb torn) false 0 (snd carried) true true) with
       | LReturn (-1, _) => (NotFound, pos)
       | _ => (ScanErr, pos)
       end
   | (sec, off) :: r =>
-      match fst (ml_findOffsetToStart_step bsec_ms false 0 (fst carried) true pos true (pos + 16) true true off true sec (snd carried) true true) with
+      match fst (ml_findOffsetToStart_step bsec_ms 0 (fst carried) true pos true (pos + 16) true true off false true sec (snd carried) true true) with
       | LBreak (_, sec') =>
           (* after the loop: the offset is read, the names and the second are cached *)
           let '(o, e, _) := ml_findOffsetToStart_frame bsec_ms 0 (fun _ => (fst carried, sec')) true pos true true off true true in
@@ -495,22 +505,19 @@ Proof. unfold ml_readLine. destruct rd_ok; reflexivity. Qed.
 (* ---- readMetricsInOneFileByEndTime: one line -------------------------------------------------
    1 openFileAndSeekTo [offset] . 2 readLine . 3 MetricItemFromFatString . 4 items = append(items, item);
    `items` is the number of items collected so far in this file *)
-Section RbeStep.
-  Variables (begin_ms end_ms : Z) (eof parse_ok : bool) (ts n : Z) (line_ok : bool) (offset : Z) (open_ok : bool) (prev : Z) (res_empty res_eq : bool).
-  Definition rbe_step_spec : leaf_flow (Z * bool * Z) Z * list leaf_act :=
-    if negb open_ok then (LReturn (0, false, 1), [A1 1 offset]) else
-    if negb line_ok then (if eof then (LReturn (n, true, 0), [A1 1 offset; A0 2]) else (LReturn (0, false, 1), [A1 1 offset; A0 2])) else
-    if negb parse_ok then (LContinue n, [A1 1 offset; A0 2; A0 3]) else
-    if (ts / 1000 <? begin_ms / 1000) || (end_ms / 1000 <? ts / 1000) then (LReturn (n, false, 0), [A1 1 offset; A0 2; A0 3]) else
-    if res_empty || res_eq
-    then (if 100000 <=? i64 (i64 (n + 1) + prev) then (LReturn (i64 (n + 1), false, 0), [A1 1 offset; A0 2; A0 3; A0 4])
-          else (LContinue (i64 (n + 1)), [A1 1 offset; A0 2; A0 3; A0 4]))
-    else (if 100000 <=? i64 (n + prev) then (LReturn (n, false, 0), [A1 1 offset; A0 2; A0 3])
-          else (LContinue n, [A1 1 offset; A0 2; A0 3])).
-End RbeStep.
+Definition rbe_step_spec (begin_ms end_ms : Z) (eof parse_ok : bool) (ts n : Z) (line_ok : bool) (offset : Z) (open_ok : bool) (prev : Z) (res_empty res_eq : bool) : leaf_flow (Z * bool * Z) Z * list leaf_act :=
+  if negb open_ok then (LReturn (0, false, 1), [A1 1 offset]) else
+  if negb line_ok then (if eof then (LReturn (n, true, 0), [A1 1 offset; A0 2]) else (LReturn (0, false, 1), [A1 1 offset; A0 2])) else
+  if negb parse_ok then (LContinue n, [A1 1 offset; A0 2; A0 3]) else
+  if (ts / 1000 <? begin_ms / 1000) || (end_ms / 1000 <? ts / 1000) then (LReturn (n, false, 0), [A1 1 offset; A0 2; A0 3]) else
+  if res_empty || res_eq
+  then (if 100000 <=? i64 (i64 (n + 1) + prev) then (LReturn (i64 (n + 1), false, 0), [A1 1 offset; A0 2; A0 3; A0 4])
+        else (LContinue (i64 (n + 1)), [A1 1 offset; A0 2; A0 3; A0 4]))
+  else (if 100000 <=? i64 (n + prev) then (LReturn (n, false, 0), [A1 1 offset; A0 2; A0 3])
+        else (LContinue n, [A1 1 offset; A0 2; A0 3])).
 
 Lemma ml_readByEndTime_step_spec begin_ms end_ms eof parse_ok ts n line_ok offset open_ok prev res_empty res_eq :
-  ml_readByEndTime_step begin_ms end_ms eof parse_ok ts n line_ok offset open_ok prev res_empty res_eq =
+  ml_readByEndTime_step begin_ms end_ms parse_ok ts n eof line_ok offset open_ok prev res_empty res_eq =
   rbe_step_spec begin_ms end_ms eof parse_ok ts n line_ok offset open_ok prev res_empty res_eq.
 Proof.
   unfold ml_readByEndTime_step, rbe_step_spec. cbv zeta.
@@ -524,12 +531,12 @@ Definition appended (tr : list leaf_act) : bool := existsb (fun a => fst a =? 4)
 Fixpoint gen_rbe (its : list item) (begin_ms end_ms : Z) (res : bytes) (prev n : Z) : list item * bool :=
   match its with
   | [] =>
-      match fst (ml_readByEndTime_step begin_ms end_ms true true 0 n false 0 true prev false false) with
+      match fst (ml_readByEndTime_step begin_ms end_ms true 0 n true false 0 true prev false false) with
       | LReturn (_, c, _) => ([], c)
       | _ => ([], false)
       end
   | it :: r =>
-      let st := ml_readByEndTime_step begin_ms end_ms false true (i_ts it) n true 0 true prev
+      let st := ml_readByEndTime_step begin_ms end_ms true (i_ts it) n false true 0 true prev
                   (match res with [] => true | _ => false end) (bytes_eqb res (i_res it)) in
       match fst st with
       | LContinue n' => let '(l, c) := gen_rbe r begin_ms end_ms res prev n' in
@@ -562,19 +569,16 @@ Proof.
 Qed.
 
 (* ---- readMetricsInOneFile: one line of the line-limited reader ------------------------------- *)
-Section RmStep.
-  Variables (eof parse_ok : bool) (ts n lastSec : Z) (line_ok : bool) (maxLines offset : Z) (open_ok : bool) (prev : Z).
-  Definition rm_step_spec : leaf_flow (Z * bool * Z) (Z * Z) * list leaf_act :=
-    if negb open_ok then (LReturn (0, false, 1), [A1 1 offset]) else
-    if negb line_ok then (if eof then (LReturn (n, u32 (prev + u32 n) <? maxLines, 0), [A1 1 offset; A0 2])
-                          else (LReturn (0, false, 1), [A1 1 offset; A0 2])) else
-    if negb parse_ok then (LContinue (n, lastSec), [A1 1 offset; A0 2; A0 3]) else
-    if (maxLines <=? u32 (prev + u32 n)) && negb (ts / 1000 =? lastSec) then (LReturn (n, false, 0), [A1 1 offset; A0 2; A0 3])
-    else (LContinue (i64 (n + 1), ts / 1000), [A1 1 offset; A0 2; A0 3; A0 4]).
-End RmStep.
+Definition rm_step_spec (eof parse_ok : bool) (ts n lastSec : Z) (line_ok : bool) (maxLines offset : Z) (open_ok : bool) (prev : Z) : leaf_flow (Z * bool * Z) (Z * Z) * list leaf_act :=
+  if negb open_ok then (LReturn (0, false, 1), [A1 1 offset]) else
+  if negb line_ok then (if eof then (LReturn (n, u32 (prev + u32 n) <? maxLines, 0), [A1 1 offset; A0 2])
+                        else (LReturn (0, false, 1), [A1 1 offset; A0 2])) else
+  if negb parse_ok then (LContinue (n, lastSec), [A1 1 offset; A0 2; A0 3]) else
+  if (maxLines <=? u32 (prev + u32 n)) && negb (ts / 1000 =? lastSec) then (LReturn (n, false, 0), [A1 1 offset; A0 2; A0 3])
+  else (LContinue (i64 (n + 1), ts / 1000), [A1 1 offset; A0 2; A0 3; A0 4]).
 
 Lemma ml_readMaxLines_step_spec eof parse_ok ts n lastSec0 lastSec line_ok maxLines offset open_ok prev :
-  ml_readMaxLines_step eof parse_ok ts n lastSec0 lastSec line_ok maxLines offset open_ok prev =
+  ml_readMaxLines_step parse_ok ts n lastSec0 lastSec eof line_ok maxLines offset open_ok prev =
   rm_step_spec eof parse_ok ts n lastSec line_ok maxLines offset open_ok prev.
 Proof.
   unfold ml_readMaxLines_step, rm_step_spec. cbv zeta.
@@ -584,12 +588,12 @@ Qed.
 Fixpoint gen_rm (its : list item) (max_lines last_sec prev n : Z) : list item * bool :=
   match its with
   | [] =>
-      match fst (ml_readMaxLines_step true true 0 n 0 last_sec false max_lines 0 true prev) with
+      match fst (ml_readMaxLines_step true 0 n 0 last_sec true false max_lines 0 true prev) with
       | LReturn (_, c, _) => ([], c)
       | _ => ([], false)
       end
   | it :: r =>
-      let st := ml_readMaxLines_step false true (i_ts it) n 0 last_sec true max_lines 0 true prev in
+      let st := ml_readMaxLines_step true (i_ts it) n 0 last_sec false true max_lines 0 true prev in
       match fst st with
       | LContinue (n', last') => let '(l, c) := gen_rm r max_lines last' prev n' in
                                  ((if appended (snd st) then it :: l else l), c)
@@ -627,10 +631,9 @@ Qed.
 (* ================================================================== parameter names ===== *)
 (* the parameters are positional: pin their NAMES (the fields / reads the Go code uses in each
    position), so that reading another field of the same type in the same place is noticed *)
-Section ParamNames.
 Import Coq.Strings.String.
-Local Open Scope string_scope.
-Local Open Scope list_scope.
+Open Scope string_scope.
+Open Scope list_scope.
 Lemma ml_isNewDay_params : LeafParams.ml_isNewDay = "d_timezoneOffsetSec" :: "lastSec" :: "sec" :: nil.
 Proof. reflexivity. Qed.
 Lemma ml_Write_params : LeafParams.ml_Write = "d_latestOpSec" :: "d_timezoneOffsetSec" :: "files_nil" :: "idx_err_nil" :: "items_empty" :: "pos_0" :: "pos_1_nil" :: "roll_err_nil" :: "size_err_nil" :: "ts" :: "write_err_nil" :: nil.
@@ -643,11 +646,10 @@ Lemma ml_isPositionInTimeFor_params : LeafParams.ml_isPositionInTimeFor = "begin
 Proof. reflexivity. Qed.
 Lemma ml_searchOffsetAndRead_step_params : LeafParams.ml_searchOffsetAndRead_step = "beginTimeMs" :: "found_0" :: "found_1_nil" :: "i_in" :: "list_1_nil" :: "n_files" :: "offsetStart_in" :: "read_0" :: "read_1" :: "start_0" :: "start_1" :: "start_2_nil" :: nil.
 Proof. reflexivity. Qed.
-Lemma ml_readByEndTime_step_params : LeafParams.ml_readByEndTime_step = "beginMs" :: "endMs" :: "eof" :: "item_1_nil" :: "item_ts" :: "items_in" :: "line_1_nil" :: "offset" :: "open_1_nil" :: "prevSize" :: "res_empty" :: "res_eq" :: nil.
+Lemma ml_readByEndTime_step_params : LeafParams.ml_readByEndTime_step = "beginMs" :: "endMs" :: "item_1_nil" :: "item_ts" :: "items_in" :: "line_1_is_EOF" :: "line_1_nil" :: "offset" :: "open_1_nil" :: "prevSize" :: "res_empty" :: "res_eq" :: nil.
 Proof. reflexivity. Qed.
-Lemma ml_readMaxLines_step_params : LeafParams.ml_readMaxLines_step = "eof" :: "item_1_nil" :: "item_ts" :: "items_in" :: "lastSec" :: "lastSec_in" :: "line_1_nil" :: "maxLines" :: "offset" :: "open_1_nil" :: "prevSize" :: nil.
+Lemma ml_readMaxLines_step_params : LeafParams.ml_readMaxLines_step = "item_1_nil" :: "item_ts" :: "items_in" :: "lastSec" :: "lastSec_in" :: "line_1_is_EOF" :: "line_1_nil" :: "maxLines" :: "offset" :: "open_1_nil" :: "prevSize" :: nil.
 Proof. reflexivity. Qed.
-End ParamNames.
 
 (* one traversal for all obligations (each Print Assumptions costs ~0.5 s in this environment) *)
 Definition C17_leaf_obligations := (
